@@ -13,11 +13,20 @@ FOREIGN_KW = 'zk'             # a keyword no generated callee declares
 
 CONTEXTS = ('return', 'assign', 'expr', 'if', 'try', 'with', 'listcomp', 'genexp', 'nested-def', 'lambda',
             'decoy-arg', 'decoy-kw', 'decoy-star',
-            'nested-shadow-kw', 'nested-shadow-kw-posonly', 'nested-shadow-va-posonly')
-# nested defs whose own parameter shadows a star of the wrapper: the call then forwards a different variable
-SHADOWS = {'nested-shadow-kw': ('vk', 'def _inner(kwargs):', 'return _inner({})'),
-           'nested-shadow-kw-posonly': ('vk', 'def _inner(kwargs, /):', 'return _inner({})'),
-           'nested-shadow-va-posonly': ('va', 'def _inner(args, /):', 'return _inner(())')}
+            'nested-shadow-kw', 'nested-shadow-kw-posonly', 'nested-shadow-va-posonly',
+            'nested-shadow-kw-kwonly', 'nested-shadow-va-kwonly', 'nested-shadow-kw-varkw', 'nested-shadow-va-vararg',
+            'lambda-shadow-kw-kwonly', 'lambda-shadow-va')
+# nested defs / lambdas whose own parameter shadows a star of the wrapper: the call then forwards a different variable
+# (star shadowed, body template around the call)
+SHADOWS = {'nested-shadow-kw': ('vk', 'def _inner(kwargs):\n    return %s\nreturn _inner({})'),
+           'nested-shadow-kw-posonly': ('vk', 'def _inner(kwargs, /):\n    return %s\nreturn _inner({})'),
+           'nested-shadow-va-posonly': ('va', 'def _inner(args, /):\n    return %s\nreturn _inner(())'),
+           'nested-shadow-kw-kwonly': ('vk', 'def _inner(*, kwargs):\n    return %s\nreturn _inner(kwargs={})'),
+           'nested-shadow-va-kwonly': ('va', 'def _inner(*, args):\n    return %s\nreturn _inner(args=())'),
+           'nested-shadow-kw-varkw': ('vk', 'def _inner(**kwargs):\n    return %s\nreturn _inner()'),
+           'nested-shadow-va-vararg': ('va', 'def _inner(*args):\n    return %s\nreturn _inner()'),
+           'lambda-shadow-kw-kwonly': ('vk', 'return (lambda *, kwargs: %s)(kwargs={})'),
+           'lambda-shadow-va': ('va', 'return (lambda args: %s)(())')}
 ROUTES = ('global', 'closure', 'closure-shadowing-global', 'attribute', 'self', 'param-partial', 'wraps')
 UNRESOLVABLE = ('missing-global', 'non-callable', 'unset-attribute')
 DECLARED = ('declared-function', 'declared-method', 'declared-method-dotted', 'declared-super', 'declared-apply-super')
@@ -354,7 +363,7 @@ def assemble(p, ospec, cspec, k, names, va_form, vk_form, route, context, taint,
     elif context == 'decoy-star':
         body = 'return ident(*[%s])' % call
     elif context in SHADOWS:
-        body = '%s\n    return %s\n%s' % (SHADOWS[context][1], call, SHADOWS[context][2])
+        body = SHADOWS[context][1] % call
     else:
         raise AssertionError(context)
 
